@@ -19,7 +19,7 @@ import (
 	"verif/ref"
 )
 
-var c05Shapes = []string{"first-tx", "grow", "shrink", "multi-segment", "sqlite-rollback", "wal-commit", "wal-restart", "app-checkpoint", "litefs-checkpoint", "drop", "import", "replica-apply", "replica-snapshot", "role-change-recover", "snapshot-over-fork", "recreate-first-tx"}
+var c05Shapes = []string{"first-tx", "grow", "shrink", "multi-segment", "sqlite-rollback", "wal-commit", "wal-restart", "app-checkpoint", "litefs-checkpoint", "drop", "import", "replica-apply", "replica-snapshot", "role-change-recover", "snapshot-over-fork", "recreate-first-tx", "wal-to-rollback"}
 
 func init() {
 	register(&core.Check{
@@ -196,6 +196,18 @@ func judgeCrashImage(c *core.Case, img crashImage, name string, before, after mo
 	if want == nil {
 		want = ref.NewImage(ps)
 	}
+	if want.PageN > 0 {
+		// the journal mode LiteFS works with is the one of the recovered database
+		// (it selects the lock set of LiteFS's own writers and the read path of
+		// exports and snapshots)
+		if _, _, isWAL, ok := ref.HeaderInfo(want.Page(1)); ok {
+			if m := n.Store.DB(name).Mode().String(); (m == "WAL_MODE") != isWAL {
+				c.Violate(fpfx+"mode-after-recovery", fmt.Sprintf("after a crash before %q the database recovered to %s whose header says WAL=%v, but LiteFS runs it in %s", img.Label, pos, isWAL, m), d)
+				return ""
+			}
+			c.Count("mode_after_recovery_checked", 1)
+		}
+	}
 	got := mon.RawImage(mon.DBDir(n, name))
 	if dd := got.Diff(want); dd != "" {
 		c.Violate(fpfx+"image-mismatch", fmt.Sprintf("after a crash before %q the database recovered to position %s (%s) but its image differs: %s", img.Label, pos, side, dd), d)
@@ -278,7 +290,7 @@ func runC05(c *core.Case) {
 	led := newLedger()
 	rec := &crashRecorder{src: dir, base: c.Dir + "/imgs"}
 	rec.attach(n)
-	wal := shape == "wal-commit" || shape == "wal-restart" || shape == "app-checkpoint" || (shape == "litefs-checkpoint" && variant%2 == 0) || ((shape == "drop" || shape == "import") && variant%2 == 1)
+	wal := shape == "wal-commit" || shape == "wal-restart" || shape == "app-checkpoint" || shape == "wal-to-rollback" || (shape == "litefs-checkpoint" && variant%2 == 0) || ((shape == "drop" || shape == "import") && variant%2 == 1)
 	w, err := newWriter(n, "db", ps, wal, jmode, nil, c.SubRng("w"), led, 1)
 	if err != nil {
 		c.Violate("C05/setup", err.Error(), nil)
@@ -340,7 +352,7 @@ func runC05(c *core.Case) {
 				rec.setFinalized()
 				seenFinalize = false
 			}
-			if step == "journal finalize" || step == "unlock WRITE" {
+			if step == "journal finalize" || (step == "unlock WRITE" && shape != "wal-to-rollback") { // (the switch begins with a checkpoint: its WRITE unlock commits nothing)
 				seenFinalize = true
 			}
 			return orig(step)
@@ -399,8 +411,34 @@ func runC05(c *core.Case) {
 			led.put("db", after, w.d.M)
 		}
 	case "wal-commit", "wal-restart":
-		if !setup(uint32(8+variant%5), 2) {
+		// (every third wal-commit case: the interrupted transaction is the FIRST one
+		// in the log - the newest transaction file is the rollback-journal one that
+		// switched the database to WAL mode and names no position in the log)
+		extra := 2
+		if shape == "wal-commit" && variant%3 == 0 {
+			extra = 0
+			c.Count("first_wal_tx_interrupted", 1)
+		}
+		if !setup(uint32(8+variant%5), extra) {
 			return
+		}
+		if extra == 0 {
+			// back to a rollback mode and to WAL again: the newest transaction file
+			// is the journal transaction that rewrote page 1 alone
+			if r := w.conn.SwitchToRollback(jmode); r.Err != nil {
+				c.Violate("C05/setup", "switch to rollback: "+r.Err.Error(), detail)
+				return
+			}
+			w.record()
+			if r := w.conn.RunRollbackTx(pager.RollbackSpec{Mode: jmode, Outcome: "commit", NewPageN: w.d.M.PageN, WALHeader: true}); r.Err != nil {
+				c.Violate("C05/setup", "switch to wal: "+r.Err.Error(), detail)
+				return
+			}
+			w.record()
+			if err := w.conn.OpenWAL(); err != nil {
+				c.Violate("C05/setup", "open wal: "+err.Error(), detail)
+				return
+			}
 		}
 		if shape == "wal-restart" {
 			if r := w.conn.RunCheckpoint(pager.CheckpointSpec{Kind: []string{"full", "restart", "truncate"}[variant%3]}); r.Err != nil {
@@ -439,6 +477,25 @@ func runC05(c *core.Case) {
 			r.Finalized = false
 			return r
 		})
+	case "wal-to-rollback":
+		// the application switches the journal mode back (PRAGMA journal_mode=
+		// delete/truncate/persist on a WAL database): checkpoint, the log and the
+		// index are deleted, page 1 is rewritten through a rollback journal
+		if !setup(uint32(8+variant%5), 2) {
+			return
+		}
+		if variant%2 == 0 {
+			// the newest transaction file does not hold page 1 (a WAL commit need not
+			// touch it): nothing re-applied at start-up will carry the header
+			prev := mon.PosOf(n, "db")
+			r := w.conn.RunWALTx(pager.WALSpec{NewPageN: w.d.M.PageN, Outcome: "commit", SplitFrame: true, Frames: []pager.FrameSpec{{Pgno: 2}, {Pgno: 3}}})
+			if r.Err != nil || mon.PosOf(n, "db").TXID != prev.TXID+1 {
+				c.Inconclusive(fmt.Sprintf("setup transaction without page 1: %v", r.Err))
+				return
+			}
+			w.record()
+		}
+		ok = runTx(func() pager.TxResult { return w.conn.SwitchToRollback(jmode) })
 	case "litefs-checkpoint":
 		if !setup(uint32(8+variant%5), 3) {
 			return
